@@ -7,6 +7,7 @@ void registerHeaders(std::map<std::string, vh::Op>& ops);
 void registerCookie(std::map<std::string, vh::Op>& ops);
 void registerParser(std::map<std::string, vh::Op>& ops);
 void registerRouter(std::map<std::string, vh::Op>& ops);
+void registerAsync(std::map<std::string, vh::Op>& ops);
 int main()
 {
     std::map<std::string, vh::Op> ops;
@@ -17,5 +18,6 @@ int main()
     registerCookie(ops);
     registerParser(ops);
     registerRouter(ops);
+    registerAsync(ops);
     return vh::runLoop(ops);
 }
